@@ -24,6 +24,7 @@ class PyRaise(Exception):
 
 class Val:
     tag = 'val'
+    maybe_none = False      # read from a column that can hold None (encoded by a distinguished constant)
 
 
 class Num(Val):
@@ -298,6 +299,13 @@ VKIND_SORT = {'rngstate': Rng, 'dict.keys': ASeq, 'dict.vals': RArrSort, 'real':
 
 
 def wrap(vkind, term):
+    v = _wrap(vkind, term)
+    if vkind in ('mat', 'rseq', 'aseq', 'iseq'):
+        v.maybe_none = True
+    return v
+
+
+def _wrap(vkind, term):
     if vkind in ('real', 'int'):
         return Num(term)
     if vkind == 'bool':
